@@ -120,7 +120,17 @@ func sockAddress(kind, dir string) string {
 	case "unixfs":
 		return "unix:" + filepath.Join(dir, id)
 	case "tcp":
-		return fmt.Sprintf("tcp:127.0.0.1:%d", freePort())
+		// a loopback address of this process's own (all of 127/8 is local): another process probing for
+		// free ports on 127.0.0.1 at the same time cannot take the port between two serve cycles
+		n := atomic.AddInt64(&sockCounter, 1)
+		ip := fmt.Sprintf("127.%d.%d.%d", 1+os.Getpid()>>8&127, os.Getpid()&255, 1+n%250)
+		l, err := net.Listen("tcp", ip+":0")
+		if err != nil {
+			return fmt.Sprintf("tcp:127.0.0.1:%d", freePort())
+		}
+		port := l.Addr().(*net.TCPAddr).Port
+		l.Close()
+		return fmt.Sprintf("tcp:%s:%d", ip, port)
 	}
 	return "unix:@" + id
 }
